@@ -465,6 +465,10 @@ def frozen : List (String × String) :=
    ("loadFromDataWithPathInternal", "sha256:6ccad2f87e2fe281"),
    ("loadFromURIInternal", "sha256:bbc70f746eeaaa24"),
    ("loadSingleElementFromURI", "sha256:0a809f24ce12af89"),
+   -- readURL (round 5): every document is fetched through the Loader's own reader when one is set — the "store" of a
+   -- history (`World` per load, `loadSeqW`) is what that reader answers; only without one the package's caching reader
+   -- body as read: { if f := loader.ReadFromURIFunc; f != nil { return f(loader, location) } return DefaultReadFromURI(loader, location) }
+   ("readURL", "sha256:4855b2d6a5fed069"),
    -- resetVisitedPathItemRefs: visitedPathItemRefs, visitedRefs, visitedPath, backtrack are emptied, visitedDocuments = nil
    ("resetVisitedPathItemRefs", "sha256:76a92f947423e135"),
    ("resolveComponent", "sha256:14c4da81ffb14b3b"),
